@@ -29,7 +29,7 @@ class Unit(object):
     def __init__(self, name, fn, bounds=None, max_paths=3000, replay=None,
                  exceptions_are_violations=True, expect_reach=True, tol=1e-6,
                  verdict_timeout_ms=None, program=None, time_budget_s=None,
-                 allow_aborts=False):
+                 allow_aborts=False, n_programs=None):
         self.name = name
         self.fn = fn
         self.bounds = bounds or {}
@@ -42,6 +42,7 @@ class Unit(object):
         self.program = program            # description of the model definition, if any
         self.time_budget_s = time_budget_s
         self.allow_aborts = allow_aborts
+        self.n_programs = n_programs if n_programs is not None else (1 if program is not None else 0)
 
 
 class FunctionHits(object):
@@ -90,7 +91,7 @@ def run_unit(unit, tier):
     with hits.on(), contextlib.redirect_stdout(out_buf):
         ex.run(unit.fn)
     s = ex.summary()
-    res = {"unit": unit.name, "bounds": unit.bounds, "summary": s, "program": unit.program,
+    res = {"unit": unit.name, "bounds": unit.bounds, "summary": s, "program": unit.program, "n_programs": unit.n_programs,
            "violations": [], "inconclusive": [], "functions": dict(hits.hits),
            "reach": ex.reach, "witnesses": ex.witnesses, "samples": [],
            "theory": {k: theory.stats[k] - theory_before.get(k, 0) for k in theory.stats}}
@@ -327,7 +328,7 @@ def run_check(check, tier, seed, jobs=None, only=None):
     cov.update(extra)
     programs = sorted({json.dumps(r["program"], sort_keys=True) for r in results if r["program"] is not None})
     if check.level == "translation_validation":
-        cov["programs"] = max(1, len(programs))
+        cov["programs"] = max(1, int(sum(r.get("n_programs", 0) for r in results)))
         cov["disagreements_checked"] = int(agg["queries"])
     elif check.level == "model_checking":
         cov["states"] = max(1, int(agg["paths"]))
@@ -370,7 +371,7 @@ def _worker(i):
     try:
         return run_unit(_UNITS[i], _TIER)
     except BaseException as e:
-        return {"unit": _UNITS[i].name, "bounds": _UNITS[i].bounds, "program": _UNITS[i].program,
+        return {"unit": _UNITS[i].name, "bounds": _UNITS[i].bounds, "program": _UNITS[i].program, "n_programs": 0,
                 "summary": {"paths": 0, "queries": 0, "queries_unsat": 0, "solver_time_s": 0.0},
                 "violations": [], "functions": {}, "reach": {}, "witnesses": {}, "samples": [],
                 "theory": {"side_queries": 0, "instances": 0, "secs": 0.0}, "wall_s": 0.0,
